@@ -51,6 +51,15 @@ fn gen(rng: &mut Rng) -> Program {
             _ => Op::ArmCrash { k: rng.range(1, 25) as u32, after: rng.chance(1, 2) },
         });
     }
+    // crash points inside the few disk calls of one write (key-id registration, oplog-valid flag, oplog
+    // append): a third of the histories arm a kill 1-4 mutating calls ahead right before one of their writes
+    if rng.chance(1, 3) {
+        let writes: Vec<usize> = ops.iter().enumerate().filter(|(_, o)| matches!(o, Op::Write { .. } | Op::Remove { .. })).map(|(i, _)| i).collect();
+        if !writes.is_empty() {
+            let at = writes[rng.below(writes.len() as u64) as usize];
+            ops.insert(at, Op::ArmCrash { k: rng.range(1, 4) as u32, after: rng.chance(1, 2) });
+        }
+    }
     ops.push(if rng.chance(1, 2) { Op::RestartKill } else { Op::RestartSigint });
     Program { ops }
 }
